@@ -464,6 +464,249 @@ arb_storage(void)
         IMPL(self != 0 && settings != 0, settings->binning >= 1))                             \
     ASG(g; self != 0: self->state; settings != 0: settings->binning)
 
+
+#define CAM_PASSTHROUGH(REQ, ENS, ASG, self, arg, counter, rfield, what)                      \
+    CAM_PRE(REQ, self)                                                                        \
+    CAM_POST_COMMON(ENS, self)                                                                \
+    ENS("[C11.null-is-error] NULL argument gives Device_Err with no driver call",            \
+        IMPL(self == 0 || arg == 0, RET == Device_Err && DEVICE_CALLS == 0))                  \
+    ENS("[C11.state-follows-driver] " what " returns the driver's status; exactly one call", \
+        IMPL(self != 0 && arg != 0,                                                           \
+             g.counter == 1 && DEVICE_CALLS == 1 && (int)RET == g.rfield))                    \
+    ENS("[C11.state-follows-driver] " what " leaves the HAL state alone",                    \
+        IMPL(self != 0, (int)self->state == g.state0))                                        \
+    ASG(g)
+
+#define CONTRACT_camera_get(REQ, ENS, ASG, FRE)                                               \
+    CAM_PASSTHROUGH(REQ, ENS, ASG, self, settings, n_get, r_get, "camera_get")
+#define CONTRACT_camera_get_meta(REQ, ENS, ASG, FRE)                                          \
+    CAM_PASSTHROUGH(REQ, ENS, ASG, self, meta, n_get_meta, r_get_meta, "camera_get_meta")
+#define CONTRACT_camera_get_image_shape(REQ, ENS, ASG, FRE)                                   \
+    CAM_PASSTHROUGH(REQ, ENS, ASG, self, shape, n_get_shape, r_get_shape,                     \
+                    "camera_get_image_shape")
+
+#define CONTRACT_camera_start(REQ, ENS, ASG, FRE)                                             \
+    CAM_PRE(REQ, self)                                                                        \
+    CAM_POST_COMMON(ENS, self)                                                                \
+    ENS("[C11.null-is-error] NULL camera gives Device_Err with no driver call",              \
+        IMPL(self == 0, RET == Device_Err && DEVICE_CALLS == 0))                              \
+    ENS("[C11.state-follows-driver] one driver.start; result is its status",                 \
+        IMPL(self != 0, g.n_start == 1 && DEVICE_CALLS == 1 && (int)RET == g.r_start))        \
+    ENS("[C11.state-follows-driver,C08.running-iff-started] Ok means Running, Err means "    \
+        "AwaitingConfiguration",                                                              \
+        IMPL(self != 0,                                                                       \
+             self->state == (RET == Device_Ok ? DeviceState_Running                           \
+                                              : DeviceState_AwaitingConfiguration)))          \
+    ASG(g; self != 0: self->state)
+
+#define CONTRACT_camera_stop(REQ, ENS, ASG, FRE)                                              \
+    CAM_PRE(REQ, self)                                                                        \
+    CAM_POST_COMMON(ENS, self)                                                                \
+    ENS("[C11.null-is-error] NULL camera gives Device_Err with no driver call",              \
+        IMPL(self == 0, RET == Device_Err && DEVICE_CALLS == 0))                              \
+    ENS("[C11.stop-needs-start,C08.stop-once-per-start] a running camera is stopped by "     \
+        "exactly one driver.stop; a non-running one sees no driver call",                     \
+        IMPL(self != 0, g.n_stop == (WAS_RUNNING ? 1 : 0) && DEVICE_CALLS == g.n_stop))       \
+    ENS("[C11.state-follows-driver] stop Ok means Armed, stop Err means "                    \
+        "AwaitingConfiguration, result is the driver's status",                               \
+        IMPL(self != 0 && WAS_RUNNING,                                                        \
+             (int)RET == g.r_stop &&                                                          \
+               self->state == (RET == Device_Ok ? DeviceState_Armed                           \
+                                                : DeviceState_AwaitingConfiguration)))        \
+    ENS("[C11.state-follows-driver] stopping a non-running camera is Ok and changes nothing",\
+        IMPL(self != 0 && !WAS_RUNNING, RET == Device_Ok && (int)self->state == g.state0))    \
+    ENS("[C09.camera-stopped] after camera_stop the driver is not started", !g.started)       \
+    ASG(g; self != 0: self->state)
+
+#define CONTRACT_camera_execute_trigger(REQ, ENS, ASG, FRE)                                   \
+    CAM_PRE(REQ, self)                                                                        \
+    CAM_POST_COMMON(ENS, self)                                                                \
+    ENS("[C11.null-is-error] NULL camera gives Device_Err with no driver call",              \
+        IMPL(self == 0, RET == Device_Err && DEVICE_CALLS == 0))                              \
+    ENS("[C11.state-follows-driver] a running camera gets exactly one trigger call",         \
+        IMPL(self != 0 && WAS_RUNNING,                                                        \
+             g.n_trigger == 1 && DEVICE_CALLS == 1 && (int)RET == g.r_trigger))               \
+    ENS("[C11.state-follows-driver] a non-running camera gets no call and Ok",               \
+        IMPL(self != 0 && !WAS_RUNNING, DEVICE_CALLS == 0 && RET == Device_Ok))               \
+    ENS("[C11.state-follows-driver] the HAL state is unchanged",                             \
+        IMPL(self != 0, (int)self->state == g.state0))                                        \
+    ASG(g)
+
+#define CONTRACT_camera_get_frame(REQ, ENS, ASG, FRE)                                         \
+    CAM_PRE(REQ, self)                                                                        \
+    CAM_POST_COMMON(ENS, self)                                                                \
+    ENS("[C11.frame-only-running] NULL or non-running camera: Device_Err, no driver call",   \
+        IMPL(self == 0 || !WAS_RUNNING, RET == Device_Err && DEVICE_CALLS == 0))              \
+    ENS("[C11.state-follows-driver] running: one get_frame, result is its status",           \
+        IMPL(self != 0 && WAS_RUNNING, g.n_get_frame == 1 && (int)RET == g.r_get_frame))      \
+    ENS("[C11.state-follows-driver] Ok keeps the camera Running with no other call",         \
+        IMPL(self != 0 && WAS_RUNNING && RET == Device_Ok,                                    \
+             self->state == DeviceState_Running && DEVICE_CALLS == 1))                        \
+    ENS("[C11.state-follows-driver,C09.camera-stopped] a failed frame call stops the "       \
+        "camera exactly once and demotes it to AwaitingConfiguration",                        \
+        IMPL(self != 0 && WAS_RUNNING && RET != Device_Ok,                                    \
+             self->state == DeviceState_AwaitingConfiguration && g.n_stop == 1 &&             \
+               !g.started && DEVICE_CALLS == 2))                                              \
+    ASG(g; self != 0: self->state)
+
+#define CONTRACT_camera_get_state(REQ, ENS, ASG, FRE)                                         \
+    CAM_PRE(REQ, camera)                                                                      \
+    ENS("[C11.state-follows-driver] reports the stored state, Closed for NULL; no call",     \
+        (int)RET == (camera ? g.state0 : (int)DeviceState_Closed) && DEVICE_CALLS == 0)       \
+    ASG()
+
+/* ---------------------------------------------------------------- storage.c */
+#define STO_PRE(REQ, self)                                                                    \
+    REQ(self == 0 || (STO_AGREE(self) && self->device.driver == &g_driver))                   \
+    REQ(DEVICE_CALLS == 0 && g.state0 == (self ? (int)self->state : 0) &&                     \
+        g.started0 == g.started)
+
+#define STO_POST_COMMON(ENS, self)                                                            \
+    ENS("[C11.agree] HAL state and driver protocol state agree afterwards",                  \
+        IMPL(self != 0, STO_AGREE(self)))                                                     \
+    ENS("[C11.one-close-per-open] the device is not closed by this call", g.n_close == 0)
+
+#define CONTRACT_storage_open(REQ, ENS, ASG, FRE)                                             \
+    REQ(!g.alive && g.n_open == 0 && g.n_close == 0 && g.kind == DeviceKind_Storage)          \
+    ENS("[C11.one-close-per-open,C08.no-leak] storage_open returning NULL leaves no "        \
+        "device open",                                                                        \
+        IMPL(RET == 0, g.n_open == g.n_close && !g.alive))                                    \
+    ENS("[C11.one-close-per-open] storage_open returning a device leaves exactly that "      \
+        "device open",                                                                        \
+        IMPL(RET != 0, (void*)RET == g.dev && g.alive && g.n_open == 1 && g.n_close == 0))    \
+    ENS("[C11.agree] the returned storage is not Running and the driver is not started",     \
+        IMPL(RET != 0, STO_AGREE(RET) && RET->state != DeviceState_Running))                  \
+    ENS("[C12.bad-input-is-error] NULL identifier or wrong kind gives NULL without any "     \
+        "driver call",                                                                        \
+        IMPL(identifier == 0 || identifier->kind != DeviceKind_Storage,                       \
+             RET == 0 && g.n_open == 0))                                                      \
+    ENS("[C11.stop-needs-start] no start/stop/append happens in open",                       \
+        g.n_start + g.n_stop + g.n_append == 0)                                               \
+    ASG(g)
+
+#define CONTRACT_storage_validate(REQ, ENS, ASG, FRE)                                         \
+    REQ(!g.alive && g.n_open == 0 && g.n_close == 0 && g.kind == DeviceKind_Storage)          \
+    REQ(identifier != 0)                                                                      \
+    ENS("[C11.one-close-per-open,C08.no-leak] storage_validate always closes what it "       \
+        "opened, exactly once",                                                               \
+        g.n_open == g.n_close && !g.alive && g.n_open <= 1)                                   \
+    ENS("[C11.state-follows-driver] valid iff the driver's set answered Armed",              \
+        IFF(RET != 0, g.n_set == 1 && g.r_set == DeviceState_Armed))                          \
+    ENS("[C11.append-only-running] validate never starts or appends",                        \
+        g.n_start + g.n_append == 0)                                                          \
+    ASG(g)
+
+#define CONTRACT_storage_close(REQ, ENS, ASG, FRE)                                            \
+    STO_PRE(REQ, self)                                                                        \
+    ENS("[C11.one-close-per-open] storage_close closes the device exactly once",             \
+        IMPL(self != 0, g.n_close == 1 && !g.alive))                                          \
+    ENS("[C11.stop-needs-start,C08.stop-once-per-start] a running device is stopped once "   \
+        "before the close, a non-running one is not stopped",                                 \
+        IMPL(self != 0, g.n_stop == (WAS_RUNNING ? 1 : 0)))                                   \
+    ENS("[C11.null-is-noop] storage_close(NULL) makes no driver call",                       \
+        IMPL(self == 0, DEVICE_CALLS == 0))                                                   \
+    ASG(g; self != 0: self->state)                                                            \
+    FRE(self)
+
+#define CONTRACT_storage_set(REQ, ENS, ASG, FRE)                                              \
+    STO_PRE(REQ, self)                                                                        \
+    STO_POST_COMMON(ENS, self)                                                                \
+    ENS("[C11.null-is-error] NULL argument gives Device_Err with no driver call",            \
+        IMPL(self == 0 || settings == 0, RET == Device_Err && DEVICE_CALLS == 0))             \
+    ENS("[C11.state-follows-driver] the HAL state is the state the driver's set returned",   \
+        IMPL(self != 0 && settings != 0,                                                      \
+             g.n_set == 1 && DEVICE_CALLS == 1 && (int)self->state == g.r_set))               \
+    ENS("[C11.state-follows-driver] Ok iff the driver answered Armed",                       \
+        IMPL(self != 0 && settings != 0, IFF(RET == Device_Ok, g.r_set == DeviceState_Armed)))\
+    ASG(g; self != 0: self->state)
+
+#define CONTRACT_storage_get(REQ, ENS, ASG, FRE)                                              \
+    STO_PRE(REQ, self)                                                                        \
+    STO_POST_COMMON(ENS, self)                                                                \
+    ENS("[C11.null-is-error] NULL device gives Device_Err with no driver call",              \
+        IMPL(self == 0, RET == Device_Err && DEVICE_CALLS == 0))                              \
+    ENS("[C11.state-follows-driver] one driver.get, state unchanged",                        \
+        IMPL(self != 0, RET == Device_Ok && g.n_get == 1 && DEVICE_CALLS == 1 &&              \
+                          (int)self->state == g.state0))                                      \
+    ASG(g)
+
+#define CONTRACT_storage_get_meta(REQ, ENS, ASG, FRE)                                         \
+    STO_PRE(REQ, self)                                                                        \
+    STO_POST_COMMON(ENS, self)                                                                \
+    ENS("[C11.null-is-error] NULL device gives Device_Err with no driver call",              \
+        IMPL(self == 0, RET == Device_Err && DEVICE_CALLS == 0))                              \
+    ENS("[C11.state-follows-driver] one driver.get_meta, state unchanged",                   \
+        IMPL(self != 0, RET == Device_Ok && g.n_get_meta == 1 && DEVICE_CALLS == 1 &&         \
+                          (int)self->state == g.state0))                                      \
+    ASG(g)
+
+#define CONTRACT_storage_reserve_image_shape(REQ, ENS, ASG, FRE)                              \
+    STO_PRE(REQ, self)                                                                        \
+    STO_POST_COMMON(ENS, self)                                                                \
+    ENS("[C11.null-is-error] NULL device gives Device_Err with no driver call",              \
+        IMPL(self == 0, RET == Device_Err && DEVICE_CALLS == 0))                              \
+    ENS("[C11.state-follows-driver] one driver.reserve_image_shape, state unchanged",        \
+        IMPL(self != 0, RET == Device_Ok && g.n_reserve == 1 && DEVICE_CALLS == 1 &&          \
+                          (int)self->state == g.state0))                                      \
+    ASG(g)
+
+#define WAS_ARMED (g.state0 == DeviceState_Armed)
+#define CONTRACT_storage_start(REQ, ENS, ASG, FRE)                                            \
+    STO_PRE(REQ, self)                                                                        \
+    STO_POST_COMMON(ENS, self)                                                                \
+    ENS("[C11.null-is-error,C08.start-only-armed] NULL or not-Armed device: Device_Err "     \
+        "and no driver call",                                                                 \
+        IMPL(self == 0 || !WAS_ARMED, RET == Device_Err && DEVICE_CALLS == 0))                \
+    ENS("[C11.state-follows-driver] Armed: one driver.start; the HAL state is what it "      \
+        "returned; Ok iff Running",                                                           \
+        IMPL(self != 0 && WAS_ARMED,                                                          \
+             g.n_start == 1 && DEVICE_CALLS == 1 && (int)self->state == g.r_start &&          \
+               IFF(RET == Device_Ok, g.r_start == DeviceState_Running)))                      \
+    ASG(g; self != 0: self->state)
+
+#define CONTRACT_storage_stop(REQ, ENS, ASG, FRE)                                             \
+    STO_PRE(REQ, self)                                                                        \
+    STO_POST_COMMON(ENS, self)                                                                \
+    ENS("[C11.null-is-error] NULL device gives Device_Err with no driver call",              \
+        IMPL(self == 0, RET == Device_Err && DEVICE_CALLS == 0))                              \
+    ENS("[C11.stop-needs-start,C08.stop-once-per-start] a running device gets exactly one "  \
+        "driver.stop, a non-running one none",                                                \
+        IMPL(self != 0, g.n_stop == (WAS_RUNNING ? 1 : 0) && DEVICE_CALLS == g.n_stop))       \
+    ENS("[C11.state-follows-driver] the HAL state is what driver.stop returned; Ok iff "     \
+        "Armed or AwaitingConfiguration",                                                     \
+        IMPL(self != 0 && WAS_RUNNING,                                                        \
+             (int)self->state == g.r_stop &&                                                  \
+               IFF(RET == Device_Ok, g.r_stop == DeviceState_Armed ||                         \
+                                       g.r_stop == DeviceState_AwaitingConfiguration)))       \
+    ENS("[C11.state-follows-driver] stopping a non-running device is Ok and changes nothing",\
+        IMPL(self != 0 && !WAS_RUNNING, RET == Device_Ok && (int)self->state == g.state0))    \
+    ASG(g; self != 0: self->state)
+
+#define CONTRACT_storage_append(REQ, ENS, ASG, FRE)                                           \
+    STO_PRE(REQ, self)                                                                        \
+    REQ(beg == 0 || __CPROVER_same_object(beg, end))                                          \
+    STO_POST_COMMON(ENS, self)                                                                \
+    ENS("[C11.append-only-running,C08.data-only-between-start-stop] NULL or non-running "    \
+        "device: Device_Err and no driver call",                                              \
+        IMPL(self == 0 || !WAS_RUNNING, RET == Device_Err && DEVICE_CALLS == 0))              \
+    ENS("[C11.append-only-running] an empty or reversed packet makes no driver call",        \
+        IMPL(self != 0 && WAS_RUNNING && !(beg < end),                                        \
+             DEVICE_CALLS == 0 && RET == (end >= beg ? Device_Ok : Device_Err) &&             \
+               (int)self->state == g.state0))                                                 \
+    ENS("[C11.state-follows-driver,C16.failure-is-reported,C09.append-failure-reported] a "  \
+        "non-empty packet is appended once; the HAL state is what the driver returned and "   \
+        "anything but Running is reported as Device_Err",                                     \
+        IMPL(self != 0 && WAS_RUNNING && beg < end,                                           \
+             g.n_append == 1 && DEVICE_CALLS == 1 && (int)self->state == g.r_append &&        \
+               IFF(RET == Device_Ok, g.r_append == DeviceState_Running)))                     \
+    ASG(g; self != 0: self->state)
+
+#define CONTRACT_storage_get_state(REQ, ENS, ASG, FRE)                                        \
+    STO_PRE(REQ, self)                                                                        \
+    ENS("[C11.state-follows-driver] reports the stored state, Closed for NULL; no call",     \
+        (int)RET == (self ? g.state0 : (int)DeviceState_Closed) && DEVICE_CALLS == 0)         \
+    ASG()
+
 /* ================================================================== real code */
 #ifndef VERIF_NATIVE
 enum DeviceStatusCode
@@ -479,6 +722,58 @@ camera_close(struct Camera* self) DFCC_CONTRACT(camera_close);
 enum DeviceStatusCode
 camera_set(struct Camera* self, struct CameraProperties* settings)
   DFCC_CONTRACT(camera_set);
+enum DeviceStatusCode
+camera_get(const struct Camera* self, struct CameraProperties* settings)
+  DFCC_CONTRACT(camera_get);
+enum DeviceStatusCode
+camera_get_meta(const struct Camera* self, struct CameraPropertyMetadata* meta)
+  DFCC_CONTRACT(camera_get_meta);
+enum DeviceStatusCode
+camera_get_image_shape(const struct Camera* self, struct ImageShape* shape)
+  DFCC_CONTRACT(camera_get_image_shape);
+enum DeviceStatusCode
+camera_start(struct Camera* self) DFCC_CONTRACT(camera_start);
+enum DeviceStatusCode
+camera_stop(struct Camera* self) DFCC_CONTRACT(camera_stop);
+enum DeviceStatusCode
+camera_execute_trigger(struct Camera* self) DFCC_CONTRACT(camera_execute_trigger);
+enum DeviceStatusCode
+camera_get_frame(struct Camera* self, void* im, size_t* nbytes, struct ImageInfo* info)
+  DFCC_CONTRACT(camera_get_frame);
+enum DeviceState
+camera_get_state(const struct Camera* const camera) DFCC_CONTRACT(camera_get_state);
+struct Storage*
+storage_open(const struct DeviceManager* system,
+             const struct DeviceIdentifier* identifier) DFCC_CONTRACT(storage_open);
+int
+storage_validate(const struct DeviceManager* system,
+                 const struct DeviceIdentifier* identifier,
+                 const struct StorageProperties* settings)
+  DFCC_CONTRACT(storage_validate);
+void
+storage_close(struct Storage* self) DFCC_CONTRACT(storage_close);
+enum DeviceStatusCode
+storage_set(struct Storage* self, const struct StorageProperties* settings)
+  DFCC_CONTRACT(storage_set);
+enum DeviceStatusCode
+storage_get(const struct Storage* self, struct StorageProperties* settings)
+  DFCC_CONTRACT(storage_get);
+enum DeviceStatusCode
+storage_get_meta(const struct Storage* self, struct StoragePropertyMetadata* meta)
+  DFCC_CONTRACT(storage_get_meta);
+enum DeviceStatusCode
+storage_reserve_image_shape(struct Storage* self, const struct ImageShape* shape)
+  DFCC_CONTRACT(storage_reserve_image_shape);
+enum DeviceStatusCode
+storage_start(struct Storage* self) DFCC_CONTRACT(storage_start);
+enum DeviceStatusCode
+storage_stop(struct Storage* self) DFCC_CONTRACT(storage_stop);
+enum DeviceStatusCode
+storage_append(struct Storage* self,
+               const struct VideoFrame* beg,
+               const struct VideoFrame* end) DFCC_CONTRACT(storage_append);
+enum DeviceState
+storage_get_state(const struct Storage* const self) DFCC_CONTRACT(storage_get_state);
 #endif
 
 #include "device/hal/driver.c"
@@ -580,5 +875,289 @@ h_camera_set(void)
            "set fails on a running camera");
     VCOVER(self && settings && ret == Device_Ok && WAS_RUNNING,
            "set succeeds on a running camera");
+    H_END;
+}
+
+/* An arbitrary open camera, or NULL. */
+static struct Camera*
+arb_camera_or_null(void)
+{
+    struct Camera* self = arb_camera();
+    if (nd_bool()) {
+        free(self);
+        ghost_reset();
+        self = 0;
+    }
+    return self;
+}
+
+static struct Storage*
+arb_storage_or_null(void)
+{
+    struct Storage* self = arb_storage();
+    if (nd_bool()) {
+        free(self);
+        ghost_reset();
+        self = 0;
+    }
+    return self;
+}
+
+#define CAM_COVERS                                                             \
+    VCOVER(self && WAS_RUNNING, "running camera");                             \
+    VCOVER(self && !WAS_RUNNING, "non-running camera");                        \
+    VCOVER(!self, "NULL camera");                                              \
+    H_END
+
+void
+h_camera_get(void)
+{
+    struct Camera* self = arb_camera_or_null();
+    struct CameraProperties props;
+    struct CameraProperties* settings = nd_bool() ? &props : 0;
+    enum DeviceStatusCode ret;
+    H_CALL(camera_get, ret = camera_get(self, settings));
+    VCOVER(self && settings && ret == Device_Err, "driver get fails");
+    CAM_COVERS;
+}
+
+void
+h_camera_get_meta(void)
+{
+    struct Camera* self = arb_camera_or_null();
+    struct CameraPropertyMetadata m;
+    struct CameraPropertyMetadata* meta = nd_bool() ? &m : 0;
+    enum DeviceStatusCode ret;
+    H_CALL(camera_get_meta, ret = camera_get_meta(self, meta));
+    CAM_COVERS;
+}
+
+void
+h_camera_get_image_shape(void)
+{
+    struct Camera* self = arb_camera_or_null();
+    struct ImageShape sh;
+    struct ImageShape* shape = nd_bool() ? &sh : 0;
+    enum DeviceStatusCode ret;
+    H_CALL(camera_get_image_shape, ret = camera_get_image_shape(self, shape));
+    CAM_COVERS;
+}
+
+void
+h_camera_start(void)
+{
+    struct Camera* self = arb_camera_or_null();
+    enum DeviceStatusCode ret;
+    H_CALL(camera_start, ret = camera_start(self));
+    VCOVER(self && ret == Device_Err, "driver start fails");
+    VCOVER(self && ret == Device_Ok, "driver start succeeds");
+    CAM_COVERS;
+}
+
+void
+h_camera_stop(void)
+{
+    struct Camera* self = arb_camera_or_null();
+    enum DeviceStatusCode ret;
+    H_CALL(camera_stop, ret = camera_stop(self));
+    VCOVER(self && WAS_RUNNING && ret == Device_Err, "driver stop fails");
+    CAM_COVERS;
+}
+
+void
+h_camera_execute_trigger(void)
+{
+    struct Camera* self = arb_camera_or_null();
+    enum DeviceStatusCode ret;
+    H_CALL(camera_execute_trigger, ret = camera_execute_trigger(self));
+    CAM_COVERS;
+}
+
+void
+h_camera_get_frame(void)
+{
+    struct Camera* self = arb_camera_or_null();
+    uint8_t buf[8];
+    void* im = buf;
+    size_t nb = 8;
+    size_t* nbytes = &nb;
+    struct ImageInfo inf;
+    struct ImageInfo* info = &inf;
+    enum DeviceStatusCode ret;
+    H_CALL(camera_get_frame, ret = camera_get_frame(self, im, nbytes, info));
+    VCOVER(self && WAS_RUNNING && ret == Device_Err, "driver get_frame fails");
+    VCOVER(self && WAS_RUNNING && ret == Device_Ok, "driver get_frame succeeds");
+    CAM_COVERS;
+}
+
+void
+h_camera_get_state(void)
+{
+    struct Camera* camera = arb_camera_or_null();
+    enum DeviceState ret;
+    H_CALL(camera_get_state, ret = camera_get_state(camera));
+    VCOVER(camera && ret == DeviceState_Running, "running camera");
+    H_END;
+}
+
+#define STO_COVERS                                                             \
+    VCOVER(self && WAS_RUNNING, "running storage");                            \
+    VCOVER(self && !WAS_RUNNING, "non-running storage");                       \
+    VCOVER(!self, "NULL storage");                                             \
+    H_END
+
+void
+h_storage_open(void)
+{
+    ghost_reset();
+    g.kind = DeviceKind_Storage;
+    g.open_fails = nd_bool();
+    g.describe_fails = nd_bool();
+    g.incomplete = nd_bool();
+    g_dm_returns_null = nd_bool();
+    struct DeviceIdentifier idv;
+    idv.kind = (enum DeviceKind)nd_uchar();
+    idv.device_id = nd_uchar();
+    idv.driver_id = nd_uchar();
+    const struct DeviceIdentifier* identifier = nd_bool() ? &idv : 0;
+    const struct DeviceManager* system = &g_dm;
+    struct Storage* ret;
+    H_CALL(storage_open, ret = storage_open(system, identifier));
+    VCOVER(ret != 0, "open succeeds");
+    VCOVER(ret == 0 && g.n_open == 1, "open then reject");
+    H_END;
+}
+
+void
+h_storage_validate(void)
+{
+    ghost_reset();
+    g.kind = DeviceKind_Storage;
+    g.open_fails = nd_bool();
+    g.describe_fails = nd_bool();
+    g_dm_returns_null = nd_bool();
+    struct DeviceIdentifier idv;
+    idv.kind = (enum DeviceKind)nd_uchar();
+    idv.device_id = nd_uchar();
+    idv.driver_id = nd_uchar();
+    const struct DeviceIdentifier* identifier = &idv;
+    const struct DeviceManager* system = &g_dm;
+    struct StorageProperties sp;
+    const struct StorageProperties* settings = &sp;
+    int ret;
+    H_CALL(storage_validate, ret = storage_validate(system, identifier, settings));
+    VCOVER(ret != 0, "validate succeeds");
+    VCOVER(ret == 0 && g.n_open == 1, "validate rejects after open");
+    H_END;
+}
+
+void
+h_storage_close(void)
+{
+    struct Storage* self = arb_storage_or_null();
+    H_CALL(storage_close, storage_close(self));
+    STO_COVERS;
+}
+
+void
+h_storage_set(void)
+{
+    struct Storage* self = arb_storage_or_null();
+    struct StorageProperties sp;
+    const struct StorageProperties* settings = nd_bool() ? &sp : 0;
+    enum DeviceStatusCode ret;
+    H_CALL(storage_set, ret = storage_set(self, settings));
+    VCOVER(self && settings && ret == Device_Ok, "set answers Armed");
+    VCOVER(self && settings && g.r_set == DeviceState_Running, "set answers Running");
+    STO_COVERS;
+}
+
+void
+h_storage_get(void)
+{
+    struct Storage* self = arb_storage_or_null();
+    struct StorageProperties sp;
+    struct StorageProperties* settings = &sp;
+    enum DeviceStatusCode ret;
+    H_CALL(storage_get, ret = storage_get(self, settings));
+    STO_COVERS;
+}
+
+void
+h_storage_get_meta(void)
+{
+    struct Storage* self = arb_storage_or_null();
+    struct StoragePropertyMetadata m;
+    struct StoragePropertyMetadata* meta = &m;
+    enum DeviceStatusCode ret;
+    H_CALL(storage_get_meta, ret = storage_get_meta(self, meta));
+    STO_COVERS;
+}
+
+void
+h_storage_reserve_image_shape(void)
+{
+    struct Storage* self = arb_storage_or_null();
+    struct ImageShape sh;
+    const struct ImageShape* shape = &sh;
+    enum DeviceStatusCode ret;
+    H_CALL(storage_reserve_image_shape, ret = storage_reserve_image_shape(self, shape));
+    STO_COVERS;
+}
+
+void
+h_storage_start(void)
+{
+    struct Storage* self = arb_storage_or_null();
+    enum DeviceStatusCode ret;
+    H_CALL(storage_start, ret = storage_start(self));
+    VCOVER(self && WAS_ARMED && ret == Device_Ok, "start succeeds");
+    VCOVER(self && WAS_ARMED && ret == Device_Err, "start fails");
+    STO_COVERS;
+}
+
+void
+h_storage_stop(void)
+{
+    struct Storage* self = arb_storage_or_null();
+    enum DeviceStatusCode ret;
+    H_CALL(storage_stop, ret = storage_stop(self));
+    VCOVER(self && WAS_RUNNING && ret == Device_Err, "stop answers an unexpected state");
+    STO_COVERS;
+}
+
+void
+h_storage_append(void)
+{
+    struct Storage* self = arb_storage_or_null();
+    static uint64_t packet[64];
+    unsigned lo = nd_uchar(), hi = nd_uchar();
+    VASSUME(lo <= 512 && hi <= 512);
+    const struct VideoFrame* beg = (const struct VideoFrame*)((uint8_t*)packet + lo);
+    const struct VideoFrame* end = (const struct VideoFrame*)((uint8_t*)packet + hi);
+#ifdef APPEND_NULL_PACKET
+    /* the sink hands the {NULL,NULL} slice of an empty read to storage_append; CBMC's
+     * pointer checks treat `NULL >= NULL` as fatal and leave everything after it UNKNOWN,
+     * so this case is a unit of its own, run without --pointer-check */
+    beg = 0;
+    end = 0;
+#endif
+    enum DeviceStatusCode ret;
+    H_CALL(storage_append, ret = storage_append(self, beg, end));
+#ifndef APPEND_NULL_PACKET
+    VCOVER(self && WAS_RUNNING && beg < end && ret == Device_Err, "append fails");
+    VCOVER(self && WAS_RUNNING && beg < end && ret == Device_Ok, "append succeeds");
+    VCOVER(self && WAS_RUNNING && beg > end, "reversed packet");
+#endif
+    VCOVER(self && WAS_RUNNING && beg == end, "empty packet");
+    STO_COVERS;
+}
+
+void
+h_storage_get_state(void)
+{
+    struct Storage* self = arb_storage_or_null();
+    enum DeviceState ret;
+    H_CALL(storage_get_state, ret = storage_get_state(self));
     H_END;
 }
